@@ -56,6 +56,16 @@ type Plan struct {
 	Single    bool             `json:"single"`
 	Conns     []simnet.ConnCfg `json:"conns"`
 	Faulty    bool             `json:"faulty"`
+	Second    *Second          `json:"second,omitempty"`
+}
+
+// Second is a follow-up fetch on the same client after the first operation
+// succeeded: possibly of one branch only, with its own depth, after the server
+// has grown.
+type Second struct {
+	Depth int `json:"depth"`
+	Only  int `json:"only"` // branch index to fetch, -1 = all branches
+	Grow  int `json:"grow"` // commits the server gains before it
 }
 
 func genCfg(r *core.Rand) simnet.Cfg {
@@ -100,6 +110,9 @@ func genPlan(r *core.Rand, tier string) any {
 	nc := r.Range(1, 3)
 	for i := 0; i < nc; i++ {
 		p.Conns = append(p.Conns, simnet.ConnCfg{C2S: genCfg(r), S2C: genCfg(r)})
+	}
+	if r.Chance(1, 3) {
+		p.Second = &Second{Depth: r.Pick2(0, 0, 1, 2, 3, 5), Only: r.Pick2(-1, 0, 1, 2), Grow: r.Pick2(0, 0, 1, 3)}
 	}
 	if r.Chance(1, 5) {
 		p.Faulty = true
@@ -278,7 +291,7 @@ func execPlan(t *testing.T, pa any) (out core.Outcome) {
 				out.Fail("C36|"+cfgName+"|ref-to-unknown-object", "client ref %s = %s which the server never had", n, h)
 				return
 			}
-			for o := range dag.Closure([]plumbing.Hash{h}, stop) {
+			for _, o := range sortedClosure(dag, h, stop) {
 				if !have(o) {
 					why := "after-success"
 					if !ok {
@@ -385,6 +398,130 @@ func execPlan(t *testing.T, pa any) (out core.Outcome) {
 		if p.Prior != "empty" && !upToDate {
 			out.Probe("incremental-fetch")
 		}
+		// ---- second phase: a follow-up fetch on the same client ----
+		if p.Second == nil || out.Signature != "" {
+			return
+		}
+		s2 := p.Second
+		dag2 := dag
+		if s2.Grow > 0 {
+			g := s2.Grow
+			if g > 5 {
+				g = 5
+			}
+			gst := filesystem.NewStorage(srvDisk.FS("/srv/repo.git", "srv-setup"), cache.NewObjectLRUDefault())
+			d2, err := gen.BuildDAG(p.Seed, dagCfg(p, p.Commits+g), gst)
+			if err != nil {
+				out.Inconclusive = "setup-failed"
+				return
+			}
+			// branches keep their names; only heads move (tags are left as they were)
+			for n, h := range d2.Refs {
+				if strings.HasPrefix(n, "refs/heads/") {
+					_ = gst.SetReference(plumbing.NewHashReference(plumbing.ReferenceName(n), h))
+				}
+			}
+			_ = gst.Close()
+			dag2 = d2
+		}
+		var heads []string
+		for n := range dag2.Refs {
+			if strings.HasPrefix(n, "refs/heads/") {
+				heads = append(heads, n)
+			}
+		}
+		sort.Strings(heads)
+		fetched := heads
+		var specs []config.RefSpec
+		if s2.Only >= 0 {
+			b := heads[mod(s2.Only, len(heads))]
+			fetched = []string{b}
+			specs = []config.RefSpec{config.RefSpec("+" + b + ":refs/remotes/origin/" + strings.TrimPrefix(b, "refs/heads/"))}
+		} else {
+			specs = []config.RefSpec{"+refs/heads/*:refs/remotes/origin/*"}
+		}
+		shallowBefore := len(shallow)
+		err2 := repo.Fetch(&git.FetchOptions{RemoteName: "origin", ClientOptions: copts, Depth: s2.Depth, Tags: plumbing.NoTags, RefSpecs: specs})
+		ok2 := err2 == nil || errors.Is(err2, git.NoErrAlreadyUpToDate)
+		st2 := tr.Totals()
+		logf("second fetch %v depth %d -> %v (cut %v)", specs, s2.Depth, errStr(err2), st2.Cut)
+		if st2.Cut && !st.Cut {
+			out.Faults = map[string]int{"stream-cut": 1}
+		}
+		if !ok2 && !st2.Cut {
+			out.Fail("C36|"+cfgName+"|second-fetch|unexpected-error|no-fault", "follow-up fetch of %v (depth %d, %d shallow roots before) failed although nothing was cut: %v", specs, s2.Depth, shallowBefore, err2)
+			return
+		}
+		v2 := filesystem.NewStorage(cliDisk.Clone().FS("/cli/repo.git", "verify2"), cache.NewObjectLRUDefault())
+		defer v2.Close()
+		shallow2, _ := v2.Shallow()
+		stop2 := map[plumbing.Hash]bool{}
+		for _, h := range shallow2 {
+			stop2[h] = true
+		}
+		it2, err := v2.IterReferences()
+		if err != nil {
+			out.Fail("C36|"+cfgName+"|second-fetch|client-refs-unlistable", "client IterReferences after the follow-up fetch: %v", err)
+			return
+		}
+		local2 := map[string]plumbing.Hash{}
+		_ = it2.ForEach(func(r *plumbing.Reference) error {
+			if r.Type() == plumbing.HashReference {
+				local2[r.Name().String()] = r.Hash()
+			}
+			return nil
+		})
+		names2 := make([]string, 0, len(local2))
+		for n := range local2 {
+			names2 = append(names2, n)
+		}
+		sort.Strings(names2)
+		why := "after-success"
+		if !ok2 {
+			why = "after-failure"
+		}
+		kind := "all-branches"
+		if s2.Only >= 0 {
+			kind = "one-branch"
+		}
+		if shallowBefore > 0 {
+			kind += "+shallow-client"
+		}
+		for _, n := range names2 {
+			h := local2[n]
+			dm := dag2
+			if _, known := dag2.Objects[h]; !known {
+				// (a tag object of the server's earlier state)
+				dm = dag
+				if _, known := dag.Objects[h]; !known {
+					out.Fail("C36|"+cfgName+"|second-fetch|ref-to-unknown-object", "client ref %s = %s which the server never had", n, h)
+					return
+				}
+			}
+			for _, o := range sortedClosure(dm, h, stop2) {
+				if v2.HasEncodedObject(o) != nil {
+					out.Fail(fmt.Sprintf("C36|%s|second-fetch:%s|missing-object:%s|%s", cfgName, kind, dm.Objects[o], why), "after the follow-up fetch of %v (depth %d; shallow roots %d -> %d) client ref %s = %s but object %s (%s) reachable from it is missing", specs, s2.Depth, shallowBefore, len(shallow2), n, h, o, dm.Objects[o])
+					return
+				}
+			}
+		}
+		if ok2 {
+			for _, b := range fetched {
+				n := "refs/remotes/origin/" + strings.TrimPrefix(b, "refs/heads/")
+				if local2[n] != dag2.Refs[b] {
+					out.Fail("C36|"+cfgName+"|second-fetch|branch-ref-wrong", "after the follow-up fetch the client's %s = %v, server has %s", n, local2[n], dag2.Refs[b])
+					return
+				}
+			}
+			if s2.Depth == 0 && shallowBefore == 0 && len(shallow2) > 0 {
+				out.Fail("C36|"+cfgName+"|second-fetch|unexpected-shallow", "a full follow-up fetch on a complete client left %d shallow roots", len(shallow2))
+				return
+			}
+			out.Probe("second-fetch:" + kind)
+			if len(shallow2) != shallowBefore {
+				out.Probe("second-fetch:boundary-moved")
+			}
+		}
 	})
 	out.Trace = trace
 	out.LogHash = core.HashStrings(trace)
@@ -406,6 +543,25 @@ func execPlan(t *testing.T, pa any) (out core.Outcome) {
 			out.Fail("C36|"+cfgName+"|panic", "panic: %s", short(errors.New(msg)))
 		}
 	}
+	return out
+}
+
+// sortedClosure lists the model closure commits first, then trees, then blobs,
+// each by id, so that the first missing object named in a signature does not
+// depend on map order.
+func sortedClosure(d *gen.DAG, h plumbing.Hash, stop map[plumbing.Hash]bool) []plumbing.Hash {
+	var out []plumbing.Hash
+	for o := range d.Closure([]plumbing.Hash{h}, stop) {
+		out = append(out, o)
+	}
+	rank := map[string]int{"tag": 0, "commit": 1, "tree": 2, "blob": 3}
+	sort.Slice(out, func(a, b int) bool {
+		ra, rb := rank[d.Objects[out[a]]], rank[d.Objects[out[b]]]
+		if ra != rb {
+			return ra < rb
+		}
+		return out[a].String() < out[b].String()
+	})
 	return out
 }
 
@@ -448,7 +604,7 @@ func TestCheck(t *testing.T) {
 	core.Main(t, core.Check{
 		ID:    "C36",
 		Level: "exploration",
-		Rule: "plan = server DAG (1-14 commits quick / 1-40 thorough, merge rate, chain bias, 1-4 branches, 0-4 tags incl. annotated tags on trees and blobs, committer clock skew) x client prior state (empty / prefix of the history / prefix + stale remote-tracking ref) x fetch|clone x tag mode x depth x prune x protocol v0/v1/v2 x per-connection stream behaviour (buffer capacity 1 B..unbounded, segmentation of every Write, optional cut after N bytes in either direction); " +
+		Rule: "plan = server DAG (1-14 commits quick / 1-40 thorough, merge rate, chain bias, 1-4 branches, 0-4 tags incl. annotated tags on trees and blobs, committer clock skew) x client prior state (empty / prefix of the history / prefix + stale remote-tracking ref) x fetch|clone x tag mode x depth x prune x protocol v0/v1/v2 x optional follow-up fetch on the same client (one branch or all, own depth, after the server gained 0-3 commits) x per-connection stream behaviour (buffer capacity 1 B..unbounded, segmentation of every Write, optional cut after N bytes in either direction); " +
 			"non-trivial = some Write was delivered in several segments, a writer blocked on a full buffer, or a cut fired",
 		Assumptions: []string{"both peers are go-git (real git as a peer is not simulated)", "streams are reliable ordered byte streams (TCP/pipe model): no loss, duplication or reordering inside a stream",
 			"under tag-following the set of auto-followed tags is not judged, only that created tags equal the server's and are complete", "the shallow boundary is compared with a BFS model for clones/fetches into an empty client"},
@@ -458,6 +614,6 @@ func TestCheck(t *testing.T) {
 		NewPlan: func() any { return &Plan{} },
 		Gen:     genPlan,
 		Exec:    execPlan,
-		RequiredProbes: []string{"ok:fetch", "ok:clone", "split-writes", "writer-blocked-on-full-buffer", "failed-after-cut", "incremental-fetch", "shallow-fetch", "pruned"},
+		RequiredProbes: []string{"ok:fetch", "ok:clone", "split-writes", "writer-blocked-on-full-buffer", "failed-after-cut", "incremental-fetch", "shallow-fetch", "pruned", "second-fetch:one-branch+shallow-client", "second-fetch:all-branches+shallow-client", "second-fetch:one-branch", "second-fetch:boundary-moved"},
 	})
 }
